@@ -38,6 +38,16 @@ def inner_path(e):
     return e[0] == "path" and e[2][-1:] == ("inner",)          # the connection slot of the TcpStream argument (any name)
 
 
+def _is_slot(x):
+    """the Option is the connection slot itself (through &, as_ref, as_mut), not some value computed from it - the item
+    `stream.next()` yields is computed from the slot (the stream runs on it) but says nothing about the slot"""
+    x = strip_ref(x)
+    while x[0] == "call" and x[2] and x[1].endswith(("Option::<T>::as_mut", "Option::<T>::as_ref", "Option::<T>::as_deref_mut",
+                                                     "Option::<T>::as_deref")):
+        x = strip_ref(x[2][0])
+    return inner_path(x)
+
+
 def run(ctx, chk):
     crate = ctx.crate("zvt_feig_terminal")
     retry(chk, crate)
@@ -212,7 +222,7 @@ def retry(chk, crate):
                     return [(tb, failed, slot, kn2) for val, tb in t["targets"] if val == 0]
                 # Some/None of the slot itself: `match src.inner.as_mut() { Some(t) => .., None => .. }`
                 de = ex.operand(t["d"])
-                if ty_.startswith("core::option::Option<") and any(inner_path(x) for x in walk(de)):
+                if ty_.startswith("core::option::Option<") and _is_slot(de[1] if de[0] == "discr" else de):
                     some_t = [tb for val, tb in t["targets"] if val == 1] or [t["else"]]
                     none_t = [tb for val, tb in t["targets"] if val == 0] or [t["else"]]
                     if slot != "N":
